@@ -410,7 +410,7 @@ Reimport(S) ==
   [S EXCEPT
      !.lockIdx = [k \in DOMAIN @ |-> LET vd == S.val[k[2]] IN
                     IF vd.exists /\ vd.status \in {"Active", "Pending"} /\ vd.locking[k[1]] > 0 THEN vd.locking[k[1]] ELSE Absent],
-     !.ranking = { <<S.val[v].power, v>> : v \in { x \in Vals : S.val[x].exists /\ S.val[x].status \in {"Active", "Pending"} } },
+     !.ranking = { <<S.val[v].power, v>> : v \in { x \in Vals : S.val[x].exists /\ S.val[x].status \in {"Active", "Pending"} /\ S.val[x].power > 0 } },
      !.valSet = [v \in Vals |-> IF S.val[v].exists /\ S.val[v].status = "Active" THEN S.val[v].power ELSE Absent],
      !.thr = [t \in Tokens |-> IF S.tokens[t].exists THEN S.tokens[t].threshold ELSE 0]]
 
